@@ -166,15 +166,6 @@ fn build_rdr(s: &RdrSpec) -> AnyRdr {
     }
 }
 
-fn has_liar(s: &RdrSpec) -> bool {
-    match s {
-        RdrSpec::Liar(..) => true,
-        RdrSpec::Take(_, r) => has_liar(r),
-        RdrSpec::Chain(a, b) => has_liar(a) || has_liar(b),
-        _ => false,
-    }
-}
-
 impl Read for AnyRdr {
     fn read(&mut self, buf: &mut [u8]) -> io::Result<usize> {
         match self {
@@ -189,6 +180,7 @@ impl Read for AnyRdr {
             AnyRdr::Take(r) => r.read(buf),
             AnyRdr::Chain(r) => r.read(buf),
             AnyRdr::Liar(c, f) => {
+                LIAR_CALLED.with(|l| l.set(true));
                 for b in buf.iter_mut() {
                     *b = *f;
                 }
@@ -229,7 +221,13 @@ enum Phase {
     Open { exceeds: bool },
     Advance { exceeds: bool },
     Iter,
-    Read { liar: bool },
+    /// inside `read_buffer`; `exceeds` as for `Open`
+    Read { exceeds: bool },
+}
+
+thread_local! {
+    /// set when the lying test reader has been asked for bytes (a panic after that is its fault)
+    static LIAR_CALLED: std::cell::Cell<bool> = std::cell::Cell::new(false);
 }
 
 struct Cx<'s> {
@@ -326,10 +324,8 @@ fn check_kept(cx: &mut Cx, kept: &[(&[u8], Vec<u8>)]) {
 /// says `buf` has room for
 fn read_on<'d, B: Buffer<'d>>(buf: B, caps: &[usize], cx: &mut Cx, avail: usize) -> Exit<'d> {
     let room = capped(avail, caps);
-    cx.phase = Phase::Read { liar: has_liar(&cx.rdr_spec) };
-    if exceeds(avail, caps) {
-        cx.phase = Phase::Open { exceeds: true };
-    }
+    cx.phase = Phase::Read { exceeds: exceeds(avail, caps) };
+    LIAR_CALLED.with(|l| l.set(false));
     // what an honest simple reader must deliver
     let expect: Option<Vec<u8>> = match &cx.rdr {
         AnyRdr::Slice(d, p) => Some(d[*p..(*p + room.min(d.len() - *p))].to_vec()),
@@ -666,7 +662,13 @@ impl Store {
                     let allowed = match cx.phase {
                         Phase::Advance { exceeds } => exceeds,
                         Phase::Iter => msg.contains("c19 iterator panics"),
-                        Phase::Read { liar } => liar,
+                        Phase::Read { exceeds } => {
+                            let liar = LIAR_CALLED.with(|l| l.get());
+                            if !liar && exceeds {
+                                cx.fail("C19/cap-at-panics", format!("cap_at with an index beyond the capacity panicked: {}", msg));
+                            }
+                            liar || exceeds
+                        }
                         Phase::Open { exceeds: true } => {
                             cx.fail("C19/cap-at-panics", format!("cap_at with an index beyond the capacity panicked: {}", msg));
                             true
